@@ -42,7 +42,9 @@ def get_func_in_module(module: str, qualname: str) -> Callable[..., Any]:
             raise InvalidTypeError(f"Property {module}.{qualname} is missing getter")
     elif cached_property and isinstance(func, cached_property):
         func = inspect.unwrap(func.func)
-    elif not isinstance(func, (types.FunctionType, types.BuiltinFunctionType)):
+    elif not isinstance(func, types.FunctionType):
+        # A builtin is never the function a trace was recorded for (only Python
+        # frames are traced), and it may have no signature to build a stub from.
         raise InvalidTypeError(
             f"{module}.{qualname} is of type '{type(func)}', not function."
         )
